@@ -176,7 +176,7 @@ func (s *S) drawStream(c *scen.Ctx, side string, idx int, budget *int) *stream {
 			c.Count("fault.length_over_max", 1)
 		}
 		st.illegal = make([]byte, 4+simrt.Draw(6, "c07.illtail"))
-		if pfx > uint32(M) && pfx <= 12000 && simrt.Draw(2, "c07.illfull") == 1 {
+		if side == "S" && pfx > uint32(M) && pfx <= 12000 && simrt.Draw(2, "c07.illfull") == 1 {
 			// the over-long packet arrives whole (and a little more): being completely buffered
 			// does not make it legal
 			st.illegal = make([]byte, int(pfx)+simrt.Draw(9, "c07.illtail"))
